@@ -897,6 +897,103 @@ theorem gen_scan_instance :
   · simp [s, JaxTr.Scan.toBij, JaxTrProofs.scan_ild_eq, JaxTr.scanOfLayers, Chain.inverse_and_log_det, l1, l2, Jnp.sumElem]
     norm_num
 
+/-- **`gen_vmap_slicewise` (code's own terms)** — for EVERY `in_axes` (mapped leaves or `None`), every `in_axes_condition` (any
+axis or `None`), every axis size, child behaviour, input: the four GENERATED `Vmap` methods (nested `_transform…` closures,
+`self.vmap(f)(self.bijection, x, condition)`, `Vmap.vmap` = `eqx.filter_vmap(f, in_axes=self.in_axes, axis_size=self.axis_size)`)
+return `jnp.stack(·, 0)` of the child method applied to (slice `i` of the bijection or the shared bijection, slice `i` of the input
+along axis 0, slice `i` of the condition along its axis or the shared condition), and the log-det is `jnp.sum` of the per-call ones. -/
+theorem gen_vmap_slicewise {κ : Type} [Inhabited κ] (v : JaxTr.Vmap κ ℝ) (x c : Arr κ) :
+    let bs := JaxTr.mapModule v.in_axes.1 v.bijection v.axis_size
+    let xs := JaxTr.unstack x v.axis_size ((v.in_axes.2.1 : Nat) : Int)
+    let cds := JaxTr.mapArg v.in_axes.2.2 c v.axis_size
+    Vmap.transform v x c = ArrJnp.stack (JaxTr.zipWith3 (fun b xi ci => b.fwd xi ci) bs xs cds) 0
+    ∧ Vmap.inverse v x c = ArrJnp.stack (JaxTr.zipWith3 (fun b xi ci => b.inv xi ci) bs xs cds) 0
+    ∧ Vmap.transform_and_log_det v x c
+        = (ArrJnp.stack (JaxTr.zipWith3 (fun b xi ci => (b.fwdLd xi ci).1) bs xs cds) 0,
+           JaxTr.jnpSum (JaxTr.zipWith3 (fun b xi ci => (b.fwdLd xi ci).2) bs xs cds))
+    ∧ Vmap.inverse_and_log_det v x c
+        = (ArrJnp.stack (JaxTr.zipWith3 (fun b xi ci => (b.invLd xi ci).1) bs xs cds) 0,
+           JaxTr.jnpSum (JaxTr.zipWith3 (fun b xi ci => (b.invLd xi ci).2) bs xs cds)) :=
+  JaxTrProofs.vmap_slicewise v x c
+
+/-- **`gen_vmap_eq_model`** — generated `Vmap` = the existing HAND model `ArrComb.vmap` (= `Stack` along a new leading axis,
+`vmap_eq_stack`) of the per-call bijections `JaxTrProofs.callBijs v c` (slice `i` of a mapped bijection or the shared one, with
+slice `i` of a mapped condition or the shared one), all four methods, on arrays of the declared shape; shared vs mapped parameters
+and shared vs mapped condition alike.  Hypotheses = what `Vmap.__init__` / JAX enforce: `x` is mapped along axis 0 (the literal in
+`self.in_axes`), the mapped axes have length `axis_size > 0`, children return arrays of the child shape. -/
+theorem gen_vmap_eq_model {κ : Type} [Inhabited κ] (v : JaxTr.Vmap κ ℝ) (cs : List Nat) (c : Arr κ) (hx0 : v.in_axes.2.1 = 0)
+    (hn : (JaxTrProofs.calls v c).length = v.axis_size) (hpos : 0 < v.axis_size)
+    (hsh : ArrGen.StackShaped cs (JaxTrProofs.callBijs v c)) {x : Arr κ} (hx : x ∈ WS (v.axis_size :: cs)) :
+    Vmap.transform v x c = (ArrComb.vmap cs (JaxTrProofs.callBijs v c)).fwd x c
+    ∧ Vmap.inverse v x c = (ArrComb.vmap cs (JaxTrProofs.callBijs v c)).inv x c
+    ∧ Vmap.transform_and_log_det v x c = (ArrComb.vmap cs (JaxTrProofs.callBijs v c)).fwdLd x c
+    ∧ Vmap.inverse_and_log_det v x c = (ArrComb.vmap cs (JaxTrProofs.callBijs v c)).invLd x c :=
+  JaxTrProofs.vmap_eq_model v cs c hx0 hn hpos hsh hx
+
+/-- hence the hand statement `vmap_slicewise` holds of the generated methods: chunk `i` (the `i`-th run of `∏ cshape` entries) of
+the generated `Vmap.transform` / `inverse` output is per-call bijection `i` on chunk `i` of the input -/
+theorem gen_vmap_chunks {κ : Type} [Inhabited κ] (v : JaxTr.Vmap κ ℝ) (cs : List Nat) (c : Arr κ) (hx0 : v.in_axes.2.1 = 0)
+    (hn : (JaxTrProofs.calls v c).length = v.axis_size) (hpos : 0 < v.axis_size)
+    (hb : ∀ b ∈ JaxTr.mapModule v.in_axes.1 v.bijection v.axis_size, b.toBij.Lawful (WS cs) (WS cs))
+    {x : Arr κ} (hx : x ∈ WS (v.axis_size :: cs)) :
+    chunks (Arr.prod cs) v.axis_size (Vmap.transform v x c).data
+        = List.zipWith (fun b sl => (b.fwd ⟨cs, sl⟩ c).data) (JaxTrProofs.callBijs v c) (chunks (Arr.prod cs) v.axis_size x.data)
+    ∧ chunks (Arr.prod cs) v.axis_size (Vmap.inverse v x c).data
+        = List.zipWith (fun b sl => (b.inv ⟨cs, sl⟩ c).data) (JaxTrProofs.callBijs v c) (chunks (Arr.prod cs) v.axis_size x.data) := by
+  have hbl := JaxTrProofs.callBijs_lawful c hb
+  have hl : (JaxTrProofs.callBijs v c).length = v.axis_size := by simp [JaxTrProofs.callBijs, hn]
+  have e := JaxTrProofs.vmap_eq_model v cs c hx0 hn hpos (ArrGen.stackShaped_of_lawful hbl) hx
+  have h := ArrComb.vmap_slicewise cs hbl (x := x) (by rw [hl]; exact hx) c
+  rw [hl] at h
+  rw [e.1, e.2.1]; exact h
+
+/-- **round trips of the generated `Vmap` at any condition** (mapped along any axis that exists, or shared) -/
+theorem gen_vmap_roundtrip {κ : Type} [Inhabited κ] (v : JaxTr.Vmap κ ℝ) (cs : List Nat) (c : Arr κ) (hx0 : v.in_axes.2.1 = 0)
+    (hn : (JaxTrProofs.calls v c).length = v.axis_size) (hpos : 0 < v.axis_size)
+    (hb : ∀ b ∈ JaxTr.mapModule v.in_axes.1 v.bijection v.axis_size, b.toBij.Lawful (WS cs) (WS cs))
+    {x : Arr κ} (hx : x ∈ WS (v.axis_size :: cs)) :
+    Vmap.transform v x c ∈ WS (v.axis_size :: cs) ∧ Vmap.inverse v x c ∈ WS (v.axis_size :: cs)
+    ∧ Vmap.inverse v (Vmap.transform v x c) c = x ∧ Vmap.transform v (Vmap.inverse v x c) c = x
+    ∧ (Vmap.transform_and_log_det v x c).1 = Vmap.transform v x c
+    ∧ (Vmap.inverse_and_log_det v x c).1 = Vmap.inverse v x c :=
+  JaxTrProofs.vmap_roundtrip v cs c hx0 hn hpos hb hx
+
+/-- **the generated `Vmap` with a broadcast condition is lawful** on the declared shape `axis_size :: cshape`, mapped or broadcast
+parameters, whenever the per-call bijections are lawful on `cshape` -/
+theorem gen_vmap_lawful {κ : Type} [Inhabited κ] (v : JaxTr.Vmap κ ℝ) (cs : List Nat) (hx0 : v.in_axes.2.1 = 0)
+    (hc : v.in_axes.2.2 = none)
+    (hm : (JaxTr.mapModule v.in_axes.1 v.bijection v.axis_size).length = v.axis_size) (hpos : 0 < v.axis_size)
+    (hb : ∀ b ∈ JaxTr.mapModule v.in_axes.1 v.bijection v.axis_size, b.toBij.Lawful (WS cs) (WS cs)) :
+    v.toBij.Lawful (WS (v.axis_size :: cs)) (WS (v.axis_size :: cs)) :=
+  JaxTrProofs.vmap_lawful v cs hx0 hc hm hpos hb
+
+/-- the generated `Vmap.shape` is `(axis_size, *bijection.shape)` -/
+theorem gen_vmap_shape {κ : Type} (v : JaxTr.Vmap κ ℝ) : Vmap.shape v = v.axis_size :: v.bijection.whole.shape := rfl
+
+/-- non-vacuity: `Vmap(Affine(loc=(1,), scale=(−2,)), axis_size=2)` (broadcast parameters) and the same bijection with mapped
+parameters (`in_axes` given, two slices) are lawful on arrays of shape `(2, 1)` -/
+theorem gen_vmap_instance :
+    let child (l s : ℝ) : SBij (Arr ℝ) (Arr ℝ) ℝ :=
+      SBij.ofBij (ArrComb.elementwise [((Affine.mk l s : Affine ℝ).toBij : Bij ℝ (Arr ℝ) ℝ)]) [1] none
+    let shared : JaxTr.Vmap ℝ ℝ := ⟨⟨child 1 (-2), []⟩, (none, 0, none), 2, none⟩
+    let mapped : JaxTr.Vmap ℝ ℝ := ⟨⟨child 0 1, [child 1 (-2), child 3 (1/2)]⟩, (some ⟨⟩, 0, none), 2, none⟩
+    shared.toBij.Lawful (WS [2, 1]) (WS [2, 1]) ∧ mapped.toBij.Lawful (WS [2, 1]) (WS [2, 1]) := by
+  intro child shared mapped
+  have hch : ∀ l s : ℝ, s ≠ 0 → (child l s).toBij.Lawful (WS [1]) (WS [1]) := by
+    intro l s hs
+    exact ArrComb.elementwise_lawful (shape := [1]) (by intro b hb; simp at hb; subst hb; exact Leaves.affine_lawful _ hs) (by simp [Arr.prod])
+  constructor
+  · refine gen_vmap_lawful shared [1] rfl rfl (by simp [shared, JaxTr.mapModule]) (by simp [shared]) ?_
+    intro b hb
+    simp only [shared, JaxTr.mapModule, List.mem_replicate] at hb
+    rw [hb.2]; exact hch 1 (-2) (by norm_num)
+  · refine gen_vmap_lawful mapped [1] rfl rfl (by simp [mapped, JaxTr.mapModule]) (by simp [mapped]) ?_
+    intro b hb
+    simp only [mapped, JaxTr.mapModule, List.mem_cons, List.not_mem_nil, or_false] at hb
+    rcases hb with rfl | rfl
+    · exact hch 1 (-2) (by norm_num)
+    · exact hch 3 (1/2) (by norm_num)
+
 end JaxTransformsGen
 
 
